@@ -13,7 +13,7 @@
 (*                             w_T /= |w_T|; t_new = T w_T (NaN products skipped); exit iff conv < 1e-18;   *)
 (*                             on exit the cumulative block variance divides by trace(X_b'X_b)             *)
 (* Value classes: "Fin" (finite, non-zero), "Zero", "NaN"; for PLS "Zero" = null u (constant response or   *)
-(* response exhausted) and "XZero" = finite u but null X (rank of X exhausted).  0/0 -> NaN; a NaN          *)
+(* response exhausted) and "XZero" = finite u but X'u = 0 (rank of X exhausted / no covariance).  0/0 -> NaN; a NaN *)
 (* convergence value is never < tolerance.  `a`, `b`, `conv` are the classes the iteration hook H4 reports *)
 (* (t't resp. u'u, the normaliser p'p resp. w'w, the convergence value).                                   *)
 (*                                                                                                       *)
